@@ -54,6 +54,8 @@ def _work(item):
     outs = pick_outs(g, s)
     res = {'seed': s, 'problems': [], 'n': 0, 'added': [], 'popped': []}
     d = tempfile.mkdtemp(prefix='verif-c15-')
+    # every other workbook: spill cells carry a stale cached value in the file
+    R.SPILL_CACHE = (s % 2 == 0)
     try:
         R.write_xlsx(g, d)
         names = [out_name(g, i, d) for i in outs]
@@ -121,6 +123,7 @@ def _work(item):
             raise
         res['problems'].append({'kind': 'raises', 'exc': '%s: %s' % (type(ex).__name__, str(ex)[:300])})
     finally:
+        R.SPILL_CACHE = False
         shutil.rmtree(d, ignore_errors=True)
     return res
 
